@@ -282,12 +282,44 @@ pub fn run(env: &Env) -> i32 {
         }
         out
     });
+    // (a.iii) long runs of one symbol around block and counter boundaries (255/256, 511/512, 4 KiB, 64 KiB),
+    // at several alignments: anything that counts per block or in a narrow integer goes wrong only here
+    {
+        let syms = ["\n", "\r\n", "a", "\u{e9}", " ", "\n\n \n"];
+        let lens = [255usize, 256, 257, 511, 512, 513, 767, 1023, 1024, 4095, 4096, 65535, 65536, 70001];
+        let pres = [0usize, 1, 2, 3, 7, 100, 255, 256, 257];
+        let n = (syms.len() * lens.len() * pres.len()) as u64;
+        enum_stream(env, &mut st, n, |i, s| {
+            let i = i as usize;
+            let sym = syms[i % syms.len()];
+            let len = lens[(i / syms.len()) % lens.len()];
+            let pre = pres[i / (syms.len() * lens.len())];
+            let sym2 = syms[(i + 1 + i / 7) % syms.len()];
+            let mut text = "x".repeat(pre);
+            text.push_str(&sym.repeat(len));
+            let t_at = text.len();
+            text.push_str("T\n");
+            text.push_str(&sym2.repeat(len / 2 + 1));
+            let u_at = text.len();
+            text.push('U');
+            s.count("long_run_texts");
+            let mut out = Vec::new();
+            for off in [t_at, u_at] {
+                s.evaluations += 1;
+                out.extend(conv_case("conversion-long-runs", &text, off, s));
+                if !out.is_empty() {
+                    break;
+                }
+            }
+            out
+        });
+    }
     // (b) end to end
     let cfg = program::GenCfg { undecided: true, plant: 110, newline_items: false, ..Default::default() };
     tape_stream(env, &mut st, "e2e", env.tier.n(3000, 30_000), 1200, |tape, s| e2e_case(tape, &cfg, s));
 
     let meta = Meta {
-        rule: "(a) (text, offset) pairs: all strings of length <= 6 (quick) / 8 (thorough) over {a, LF, CR, e-acute (2 bytes), blank, U+2028 LINE SEPARATOR (3 bytes, not a line feed)} with every offset at which a non-blank character starts, plus random Unicode texts with LF / CRLF / lone CR / blank runs; (b) (laid-out program, pattern) pairs for 4 fixed and 2 random layouts and all 30 patterns; non-trivial = offset or finding on the last line of a text without final newline, after a multi-byte character, after a CRLF, or a finding spanning several lines; distinct by (text, offset) resp. (text, pattern)".into(),
+        rule: "(a) (text, offset) pairs: all strings of length <= 6 (quick) / 8 (thorough) over {a, LF, CR, e-acute (2 bytes), blank, U+2028 LINE SEPARATOR (3 bytes, not a line feed)} with every offset at which a non-blank character starts, plus random Unicode texts with LF / CRLF / lone CR / blank runs, plus texts with runs of 255 .. 70 001 equal symbols (LF, CRLF, letters, blanks) at nine alignments; (b) (laid-out program, pattern) pairs for 4 fixed and 2 random layouts and all 30 patterns; non-trivial = offset or finding on the last line of a text without final newline, after a multi-byte character, after a CRLF, or a finding spanning several lines; distinct by (text, offset) resp. (text, pattern)".into(),
         assumptions: vec![
             "line model: line(text, off) = 1 + number of LF bytes before off (from the property statement)".into(),
             "which location a detector must choose is enforced by C05-C08 in the one-token-per-line layout; here the loc-set -> line-set step is checked".into(),
